@@ -18,6 +18,8 @@ type Canary struct {
 	File     string   `json:"file"`
 	Find     string   `json:"find"`
 	Replace  string   `json:"replace"`
+	Find2    string   `json:"find2,omitempty"` // optional second site in the same file (cooperating edits)
+	Replace2 string   `json:"replace2,omitempty"`
 	Funcs    []string `json:"funcs"`
 	Expect   []string `json:"expect"`
 	Why      string   `json:"why"`
@@ -48,6 +50,14 @@ func runSelftest(cfg RunConfig, file string, max int) (ran, missed int) {
 			continue
 		}
 		mut := strings.Replace(string(src), c.Find, c.Replace, 1)
+		if c.Find2 != "" {
+			if !strings.Contains(mut, c.Find2) {
+				fmt.Printf("SELFTEST %s: STALE (second pattern not found in %s)\n", c.Name, c.File)
+				ran--
+				continue
+			}
+			mut = strings.Replace(mut, c.Find2, c.Replace2, 1)
+		}
 		e := newEngine()
 		if err := e.load(cfg.Repo, map[string][]byte{path: []byte(mut)}); err != nil {
 			fmt.Printf("SELFTEST %s: mutant does not load: %v\n", c.Name, err)
